@@ -17,7 +17,7 @@ fn cfg() -> Arc<Config> {
 macro_rules! lock_proof {
     (fn $name:ident() $body:block) => {
         #[kani::proof]
-        #[kani::unwind(6)]
+        #[kani::unwind(8)]
         #[kani::stub(alloc::fmt::format, stubs::fmt_format)]
         #[kani::stub(core::fmt::write, stubs::fmt_write)]
         #[kani::stub(<core::io::CustomOwner as core::ops::Drop>::drop, stubs::custom_owner_drop)]
@@ -27,12 +27,14 @@ macro_rules! lock_proof {
         #[kani::stub(std::fs::OpenOptions::open, stubs::open_lock_file)]
         #[kani::stub(<std::fs::File as fs2::FileExt>::try_lock_exclusive, stubs::try_lock_exclusive)]
         #[kani::stub(<std::fs::File as fs2::FileExt>::unlock, stubs::flock_unlock)]
+        #[kani::stub(std::fs::remove_file, stubs::remove_lock_file)]
         // not reached when the lock is refused, but statically reachable from RaftLog::open
         #[kani::stub(crate::raft_log::wal::flush_worker::FlushWorker::spawn, crate::raft_log::wal::flush_worker::kani_h_a_worker::stub_spawn)]
         #[kani::stub(crate::raft_log::raft_log::RaftLog::load_chunk_ids, crate::raft_log::raft_log::kani_h_a_raftlog::stub_load_chunk_ids)]
         #[kani::stub(crate::config::Config::chunk_path, stubs::chunk_path)]
         #[kani::stub(crate::chunk::Chunk::open_chunk_file, stubs::open_chunk_file)]
         #[kani::stub(crc32fast::Hasher::new, stubs::crc_new)]
+        #[kani::stub(crc32fast::Hasher::update, stubs::crc_update_noop)]
         #[kani::stub(<&std::fs::File as std::io::Write>::write, stubs::file_write)]
         #[kani::stub(<&std::fs::File as std::io::Read>::read, stubs::file_read)]
         #[kani::stub(std::fs::File::sync_all, stubs::file_sync_all)]
@@ -71,6 +73,20 @@ lock_proof! {
         }
         // the refused attempt must not have disturbed the owner's lock
         assert!(stubs::flock_holder().is_some(), "refused attempt released the owner's lock");
+        // ... nor the lock FILE: a third contender (the owner still alive) is
+        // refused too and never becomes a second owner
+        match FileLock::new(cfg()) {
+            Ok(l2) => {
+                core::mem::forget(l2);
+                assert!(false, "two live owners of one directory (third attempt after a refused one)");
+            }
+            Err(e) => {
+                kani::cover!(true, "third attempt refused");
+                core::mem::forget(e);
+            }
+        }
+        assert!(stubs::flock_holders() == 1, "more than one lock holder for one directory");
+        assert!(unsafe { stubs::LOCK_UNLINKS } == 0, "the LOCK file of a live owner was unlinked");
         // owner dropped: next attempt succeeds
         drop(l1);
         assert!(stubs::flock_holder().is_none(), "lock still held after the owner was dropped");
@@ -89,12 +105,20 @@ lock_proof! {
 
 // A refused RaftLog::open / Dump::new returns Err before any chunk file is
 // touched (ghost fs call counter unchanged, no file opened or created).
-// @harness name=c13_open_refused prop=C13 tier=quick timeout=900
+// @harness name=c13_open_refused prop=C13 tier=quick timeout=900 fs=512
 lock_proof! {
     fn c13_open_refused() {
-        unsafe { stubs::FLOCK_HOLDER = Some(999); }
+        stubs::foreign_owner();
+        // the directory holds a chunk whose last record is torn: an open that
+        // went ahead would cut it
+        let mut im = crate::kani_support::image::Img::new(0, 0);
+        im.state(None, None, None, None, None);
+        let e1 = im.commit(kani::any());
+        im.vote(kani::any());
+        im.commit_len();
+        gfs::fs().files[0].len = (e1 + 5) as u64;
         let before = gfs::fs().stamp;
-        match crate::RaftLog::<KTypes>::open(cfg()) {
+        match crate::RaftLog::<RTypes>::open(cfg()) {
             Ok(rl) => {
                 core::mem::forget(rl);
                 assert!(false, "open succeeds on a directory that is locked by another owner");
@@ -104,7 +128,7 @@ lock_proof! {
                 core::mem::forget(e);
             }
         }
-        match crate::Dump::<KTypes>::new(cfg()) {
+        match crate::Dump::<RTypes>::new(cfg()) {
             Ok(d) => {
                 core::mem::forget(d);
                 assert!(false, "Dump::new succeeds on a directory that is locked by another owner");
@@ -115,6 +139,8 @@ lock_proof! {
             }
         }
         assert!(gfs::fs().stamp == before, "a refused open touched chunk files");
+        let f = &gfs::fs().files[0];
+        assert!(f.n_set_len == 0 && f.n_open == 0 && f.len == (e1 + 5) as u64, "a refused open read or modified a chunk file");
         assert!(stubs::flock_holder() == Some(999));
     }
 }
